@@ -125,7 +125,7 @@ CLAIMS["C12"] = dict(
 CLAIMS["C15"] = dict(
   level="other",
   technique="static analysis: polynomial identities on the SSA slice bounds that cut the candidate list into rows (adjacent-tile / carve-loop rule, row-count idiom followed through the callers), exactly-once emission per loop iteration (cyclic-path rule on the CFG), must-pass-through ordering of the selector-bound writes after the last write of the rows, constant-argument table of the cycling commands, dominating branch facts and index algebra on the group walk",
-  text="Decides structural necessary conditions of 'every candidate exactly once', NOT the cycle itself: (1) the grid is a partition of the candidate list — every cut of a candidate sequence in package completion is an indexed tile [lo(i):min(lo(i+1),len)] with lo(0)=0 filled for i=0..N-1 with N=ceil(len/width), or a carve loop emitting row[:k], keeping row[k:] with the same k and emitting the remainder; candidates sharing a description go to exactly one row on every path and every row is emitted once; (2) no value is dropped or duplicated between the completer's values and the groups; (3) maxY/maxX are written from the rows/columns after the last write of the rows in both grid constructors; (4) menu-complete, complete, accept-and-menu-complete step by (+1,0) and menu-complete-backward by (-1,0) through Engine.Select on every path; (5) Select leaves a finished group forward to the next group's first cell and backward to the previous group's last cell, and the group walk wraps at both ends with the old flag cleared. NOT decided: the visiting arithmetic inside one group (moveSelector / findFirstCandidate over a grid whose shape comes from run-time widths, ragged aliased rows, the column-major walk of aliased groups): no static argument in reach bounds it, so a change confined to that arithmetic is not detected (DESIGN.md §5 C15).",
+  text="Decides structural necessary conditions of 'every candidate exactly once', NOT the cycle itself: (1) the grid is a partition of the candidate list — every cut of a candidate sequence in package completion is an indexed tile [lo(i):min(lo(i+1),len)] with lo(0)=0 filled for i=0..N-1 with N=ceil(len/width), or a carve loop emitting row[:k], keeping row[k:] with the same k and emitting the remainder; candidates sharing a description go to exactly one row on every path and every row is emitted once; (2) no value is dropped or duplicated between the completer's values and the groups; (3) maxY/maxX are written from the rows/columns after the last write of the rows in both grid constructors; (4) menu-complete, complete, accept-and-menu-complete step by (+1,0) and menu-complete-backward by (-1,0) through Engine.Select on every path; (5) Select leaves a finished group forward to the next group's first cell and backward to the previous group's last cell, the group walk wraps at both ends with the old flag cleared (the modular spelling is accepted), and the backward entry into an aliased group starts its search from the grid's last column. NOT decided: the visiting arithmetic inside one group (moveSelector / findFirstCandidate over a grid whose shape comes from run-time widths, ragged aliased rows, the column-major walk of aliased groups): no static argument in reach bounds it, so a change confined to that arithmetic is not detected (DESIGN.md §5 C15).",
   ref="§0, §5 C15")
 
 NA_REASONS = {
